@@ -153,43 +153,38 @@ theorem basic_reregisters_fresh_any_handler (c : Cfg) (l : Local) (file : File) 
     (h : (step c l file din ev now gen .none).out = .write d') (hb : Desc.get? d' c.id = some b) : b.regTs = now :=
   PfC09.blc_any_reregisters_fresh hk hs habs hev h hb
 
-/-
-FINDING (full Lifecycler): the clause "re-registers itself with its remembered state and tokens …, with a fresh
-registration time" holds on the `updateConsul` paths above ONLY. If the observe timer, the join timer or a
-`ClaimTokensFor` is the first handler to write after the ring (or the own entry) was lost, the entry is re-inserted by
-`AddIngester(…, i.getRegisteredAt(), …)` with the OLD registration time — `verifyTokens` moreover publishes a freshly
-generated token set instead of the remembered tokens — and the next heartbeat finds the entry and refreshes nothing.
-Three witnesses (the same happens in the Go code: `wipeobs/*`, `wipeother/*` cases of the correspondence check):
--/
+/-- Re-registration is fresh on EVERY path (full Lifecycler; fixed in /repo <commit>): whichever handler is the first to write
+while the own entry is missing from the ring — heartbeat, observe timer (`verifyTokens`), join timer (`autoJoin`), an
+accepted `changeState`, a read-only toggle, `ClaimTokensFor` from somebody else — the entry it publishes carries
+registration time = now, the configured address and zone, and the lifecycler remembers that time; heartbeat, observe
+timer and read-only toggle publish the remembered tokens and state, the claim the remembered state.
+(Before the fix only `updateConsul` did this. Pre-fix model/code behaviour, kept for the record — inputs of the former
+`reregister_by_verify_witness`, `reregister_by_join_witness`, `reregister_by_claim_witness`:
+  verify  c={id a, numTokens 2, observe}, l={JOINING, tokens [3,8], regTs 5}, ring lost, now 9, generator [1,2]
+          ⇒ pre-fix write {a, JOINING, tokens [1,2], regTs 5};
+  join    l={PENDING, regTs 5}, ring lost, now 9 ⇒ pre-fix write {a, ACTIVE, tokens [4], regTs 5};
+  claim   l={ACTIVE, tokens [3], regTs 5}, ring {old LEAVING [7]}, now 9
+          ⇒ pre-fix write {a, addr "", ACTIVE, tokens [7], regTs 0}, next heartbeat regTs 5.) -/
+theorem reregisters_fresh_on_every_path (c : Cfg) (l : Local) (file : File) (din : Option Desc) (ev : Event) (now : Int) (gen : Gen)
+    (d' : Desc) (hk : c.kind = .LC) (hs : l.started = true) (habs : Desc.get? (din.getD []) c.id = none)
+    (hev : ev = .heartbeat ∨ ev = .verify ∨ ev = .joinTimer ∨ (∃ s, ev = .changeState s) ∨ (∃ r, ev = .changeRO r) ∨
+      ∃ frm, ev = .claim frm ∧ frm ≠ c.id)
+    (h : (step c l file din ev now gen .none).out = .write d') :
+    ∃ b, Desc.get? d' c.id = some b ∧ b.regTs = now ∧ b.addr = c.addr ∧ b.zone = c.zone ∧
+      (step c l file din ev now gen .none).l.regTs = now ∧
+      (ev = .heartbeat ∨ ev = .verify ∨ (∃ r, ev = .changeRO r) → b.tokens = l.tokens ∧ b.state = l.state) ∧
+      ((∃ frm, ev = .claim frm) → b.state = l.state) :=
+  PfC09.lc_any_reregisters_fresh hk hs habs hev h
 
-/-- observe timer first after a wipe: remembered tokens [3,8] are replaced by generated [1,2], registration time stays 5. -/
-theorem reregister_by_verify_witness :
-    let c : Cfg := { id := "a", numTokens := 2, observe := true }
-    let l : Local := { started := true, state := .JOINING, tokens := [3, 8], regTs := 5 }
-    (step c l .absent none .verify 9 (fun _ _ => [1, 2]) .none).out =
-      .write [{ id := "a", ts := 9, state := .JOINING, tokens := [1, 2], regTs := 5 }] := by
-  decide
-
-/-- join timer first after a wipe between `initRing` and the join: registration time stays 5 (heartbeat would publish 9). -/
-theorem reregister_by_join_witness :
-    let c : Cfg := { id := "a", numTokens := 1 }
-    let l : Local := { started := true, state := .PENDING, regTs := 5 }
-    (step c l .absent none .joinTimer 9 (fun _ _ => [4]) .none).out =
-      .write [{ id := "a", ts := 9, state := .ACTIVE, tokens := [4], regTs := 5 }] ∧
-    (step c l .absent none .heartbeat 9 (fun _ _ => [4]) .none).out =
-      .write [{ id := "a", ts := 9, state := .PENDING, regTs := 9 }] := by
-  decide
-
-/-- `ClaimTokensFor` first after the own entry was removed: a zero-valued ACTIVE entry with registration time 0; the
-following heartbeat restores address/zone and writes the OLD registration time 5. -/
-theorem reregister_by_claim_witness :
-    let c : Cfg := { id := "a", addr := "h:1", numTokens := 1 }
-    let l : Local := { started := true, state := .ACTIVE, tokens := [3], regTs := 5 }
-    let d : Desc := [{ id := "old", state := .LEAVING, tokens := [7] }]
-    let r := step c l .absent (some d) (.claim "old") 9 (fun _ _ => []) .none
-    r.out = .write [{ id := "a", ts := 9, state := .ACTIVE, tokens := [7], regTs := 0 }, { id := "old", state := .LEAVING }] ∧
-    (step c r.l r.file (commit (some d) r .none) .heartbeat 10 (fun _ _ => []) .none).out =
-      .write [{ id := "a", addr := "h:1", ts := 10, state := .ACTIVE, tokens := [7], regTs := 5 }, { id := "old", state := .LEAVING }] := by
+example : -- non-vacuity (the three former witness inputs, now fresh): observe timer, join timer, claim after the ring was lost
+    let cv : Cfg := { id := "a", numTokens := 2, observe := true }
+    (step cv { started := true, state := .JOINING, tokens := [3, 8], regTs := 5 } .absent none .verify 9 (fun _ _ => [1, 2]) .none).out =
+      .write [{ id := "a", ts := 9, state := .JOINING, tokens := [3, 8], regTs := 9 }] ∧
+    (step { id := "a", numTokens := 1 } { started := true, state := .PENDING, regTs := 5 } .absent none .joinTimer 9 (fun _ _ => [4]) .none).out =
+      .write [{ id := "a", ts := 9, state := .ACTIVE, tokens := [4], regTs := 9 }] ∧
+    (step { id := "a", addr := "h:1", numTokens := 1 } { started := true, state := .ACTIVE, tokens := [3], regTs := 5 } .absent
+        (some [{ id := "old", state := .LEAVING, tokens := [7] }]) (.claim "old") 9 (fun _ _ => []) .none).out =
+      .write [{ id := "a", addr := "h:1", ts := 9, state := .ACTIVE, tokens := [7], regTs := 9 }, { id := "old", state := .LEAVING }] := by
   decide
 
 /-- while calls are rejected, heartbeats change neither the store nor the remembered state, tokens or file. (Registration
@@ -235,14 +230,17 @@ example : -- non-vacuity: JOINING→ACTIVE rejected, the ring still shows JOININ
   decide
 
 /-- `ClaimTokensFor` whose CAS fails — the store rejects the call, the ring is empty, or the commit is rejected —
-claims nothing and forgets nothing: remembered tokens and tokens file are as before, the store is unchanged.
+claims nothing and forgets nothing: remembered state, tokens, read-only state and tokens file are as before, the store is
+unchanged (only the remembered registration time may already be refreshed when a COMMIT is rejected after the callback
+found the own entry missing).
 (Fixed in /repo 392dd5f. Before the fix the closure called `setTokens(nil)` on a failed CAS:
   c = {id "a", numTokens 2, hasFile}, l.tokens = [3,8], file [3,8], ring a:[3,8] old(LEAVING):[5], claim "old" rejected
   ⇒ l.tokens = [], file = [] while the ring still held [3,8] — former `claim_under_fault_forgets_tokens_witness`.) -/
 theorem claim_under_fault_keeps_tokens (c : Cfg) (l : Local) (file : File) (din : Option Desc) (frm : String) (now : Int)
     (gen : Gen) (fault : Fault) (hk : c.kind = .LC) (hs : l.started = true) (hfail : fault ≠ .none ∨ din = none) :
     let r := step c l file din (.claim frm) now gen fault
-    r.l = l ∧ r.file = file ∧ commit din r fault = din ∧ r.ret = .ok :=
+    r.l.tokens = l.tokens ∧ r.l.state = l.state ∧ r.l.ro = l.ro ∧ r.l.started = true ∧ r.file = file ∧
+    commit din r fault = din ∧ r.ret = .ok ∧ (fault = .failBefore ∨ din = none → r.l = l) :=
   PfC09.claim_failed_keeps hk hs hfail
 
 example : -- non-vacuity (the former witness input): nothing is forgotten
